@@ -27,6 +27,7 @@ type rawBuild struct {
 	kid        string
 	reveal     string
 	header     map[string]any
+	extra      map[string]any // Step.SignedExtra
 
 	// products
 	delta   map[string]any
@@ -70,15 +71,35 @@ func (rb *rawBuild) build() {
 		rb.payload = map[string]any{"recoveryKey": rb.w.refJWK(rb.sign), "didSuffix": rb.suffix}
 	}
 	if rb.from != 0 {
-		rb.payload["anchorFrom"] = json.Number(itoa(rb.from))
+		rb.payload["anchorFrom"] = intLiteral(rb.from)
 	}
 	if rb.until != 0 {
-		rb.payload["anchorUntil"] = json.Number(itoa(rb.until))
+		rb.payload["anchorUntil"] = intLiteral(rb.until)
+	}
+	for k, v := range rb.extra {
+		if _, has := rb.payload[k]; has {
+			continue
+		}
+		switch v {
+		case "$reveal":
+			v = rb.reveal
+		case "$suffix":
+			v = rb.suffix
+		}
+		rb.payload[k] = v
 	}
 	rb.req = map[string]any{"type": string(rb.kind), "didSuffix": rb.suffix, "revealValue": rb.reveal}
 	if rb.delta != nil {
 		rb.req["delta"] = rb.delta
 	}
+}
+
+// intLiteral is the JSON number of i: a plain number where RFC 8785 can express it exactly, else the verbatim literal.
+func intLiteral(i int64) any {
+	if i > -(1<<53) && i < 1<<53 {
+		return json.Number(itoa(i))
+	}
+	return ref.RawJSON(itoa(i))
 }
 
 func itoa(i int64) string {
